@@ -228,4 +228,252 @@ Proof.
   split; auto. intros t Ht. apply wl_protected. auto.
 Qed.
 
+(* ---------------------------------------------------------------------------------------- *)
+(* linearizability of one-critical-section operations                                       *)
+
+Notation bact := (bact St L).
+Notation op := (op K St L).
+Notation athread := (athread K St L).
+Notation seq_op := (seq_op Keqb).
+Notation astep := (astep Keqb).
+Notation asteps := (asteps Keqb).
+
+Lemma run_body_cons b rem (x : L * St) : run_body (b :: rem) x = run_body rem (run_b x b).
+Proof. reflexivity. Qed.
+
+Lemma run_body_reads (rem : list bact) (x : L * St) : forallb is_read rem = true -> snd (run_body rem x) = snd x.
+Proof.
+  revert x. induction rem as [|b rem IH]; intros x H; simpl in *; auto.
+  apply andb_true_iff in H as [Hb Hr]. rewrite (IH _ Hr). destruct b; simpl in *; [reflexivity|discriminate].
+Qed.
+
+Lemma upd_same (s : store) l v : upd s l v l = v.
+Proof. unfold RwLock.upd. rewrite Keqb_refl. reflexivity. Qed.
+
+Lemma upd_other (s : store) l v k : k <> l -> upd s l v k = s k.
+Proof. intros H. unfold RwLock.upd. rewrite (Keqb_neq _ _ H). reflexivity. Qed.
+
+Lemma compile_all_cons (o : op) rest : compile_all (o :: rest) =
+  Acq (olock o) (omode o) :: map (bact_act (olock o)) (obody o) ++ Rel (olock o) :: compile_all rest.
+Proof.
+  unfold compile_all. simpl. unfold compile at 1. simpl. rewrite <- app_assoc. reflexivity.
+Qed.
+
+(* How a fine-grained thread relates to its atomic counterpart.  Outside a section they agree.
+   Inside a section on l with [rem] still to run, the atomic thread has already run the whole
+   operation: its local memory (and, for a writer, the object) is the fine-grained state
+   fast-forwarded through [rem].                                                              *)
+Definition trel (s sa : store) (t : thread) (a : athread) : Prop :=
+  forallb op_ok (fst a) = true /\
+  ((holds t = [] /\ todo t = compile_all (fst a) /\ snd a = loc t) \/
+   (exists l m rem,
+       holds t = [(l, m)] /\
+       todo t = map (bact_act l) rem ++ Rel l :: compile_all (fst a) /\
+       (m = Rm -> forallb is_read rem = true) /\
+       snd a = fst (run_body rem (loc t, s l)) /\
+       (m = Wm -> sa l = snd (run_body rem (loc t, s l))))).
+
+(* objects nobody is writing are identical in both executions *)
+Definition srel (s sa : store) (ts : pool) := forall l, no_writer l ts -> s l = sa l.
+
+Definition simrel (c : store * pool) (ca : store * list athread) : Prop :=
+  Inv (snd c) /\ Forall2 (trel (fst c) (fst ca)) (snd c) (snd ca) /\ srel (fst c) (fst ca) (snd c).
+
+Lemma trel_mono (s sa s' sa' : store) (u : thread) au :
+  trel s sa u au ->
+  (forall l, hget l (holds u) <> None -> s' l = s l) ->
+  (forall l, hget l (holds u) = Some Wm -> sa' l = sa l) ->
+  trel s' sa' u au.
+Proof.
+  intros [Hok [H|(l & m & rem & Hh & Ht & Hr & Ha & Hw)]] Hs Hsa; split; auto.
+  right. exists l, m, rem.
+  assert (E : s' l = s l). { apply Hs. rewrite Hh. rewrite hget_cons_same. discriminate. }
+  rewrite E. repeat split; auto.
+  intros ->. rewrite Hsa; auto. rewrite Hh. apply hget_cons_same.
+Qed.
+
+Lemma Forall2_trel_mono (s sa s' sa' : store) (us : pool) aus :
+  Forall2 (trel s sa) us aus ->
+  (forall u l, In u us -> hget l (holds u) <> None -> s' l = s l) ->
+  (forall u l, In u us -> hget l (holds u) = Some Wm -> sa' l = sa l) ->
+  Forall2 (trel s' sa') us aus.
+Proof.
+  induction 1 as [|u au us aus Hu _ IH]; intros Hs Hsa; constructor.
+  - eapply trel_mono; eauto; intros; [eapply Hs|eapply Hsa]; simpl; eauto.
+  - apply IH; intros; [eapply Hs|eapply Hsa]; simpl; eauto.
+Qed.
+
+Lemma no_writer_split l (pre post : pool) t :
+  no_writer l (pre ++ t :: post) <-> (no_writer l (pre ++ post) /\ hget l (holds t) <> Some Wm).
+Proof.
+  unfold RwLock.no_writer. split.
+  - intros H. split; [intros x Hx; apply H; rewrite in_app_iff in *; simpl; tauto|apply H; rewrite in_app_iff; simpl; auto].
+  - intros [H1 H2] x Hx. rewrite in_app_iff in Hx. simpl in Hx.
+    destruct Hx as [Hx|[<-|Hx]]; auto; apply H1; rewrite in_app_iff; auto.
+Qed.
+
+Lemma no_holder_no_writer l (ts : pool) : no_holder l ts -> no_writer l ts.
+Proof. intros H t Ht. rewrite (H t Ht). discriminate. Qed.
+
+(* One fine-grained step is matched by exactly one atomic step when it is a lock acquisition
+   (the whole operation takes effect at that instant), and by none otherwise.                 *)
+Lemma sim_step c ca c' :
+  simrel c ca -> step c c' ->
+  exists ca', simrel c' ca' /\
+    ((exists pre t t' post l m rest, snd c = pre ++ t :: post /\ snd c' = pre ++ t' :: post /\
+                                     todo t = Acq l m :: rest /\ astep ca ca')
+     \/ ca' = ca).
+Proof.
+  intros (HI & HF & HS) Hst.
+  assert (HI' : Inv (snd c')) by (destruct c, c'; eapply Inv_step; eauto).
+  inversion Hst as [s s' pre t t' post Hts]; subst. destruct ca as [sa ats]. simpl in *.
+  apply Forall2_app_inv_l in HF as (apre & apost0 & HFpre & HFpost0 & ->).
+  inversion HFpost0 as [|t0 a ? apost Hta HFpost]; subst. clear HFpost0.
+  destruct HI as [Hwl Hex].
+  assert (Hexo : forall l, hget l (holds t) = Some Wm -> no_holder l (pre ++ post)).
+  { intros l Hl. eapply Hex; eauto. }
+  destruct Hta as [Hok [(Hh & Htodo & Hloc)|(l & m & rem & Hh & Htodo & Hrd & Hloc & Hwr)]].
+  - (* outside a section: the only possible step is the acquisition that opens the next operation *)
+    destruct a as [ops la]. simpl in *. subst la.
+    destruct ops as [|o rest].
+    { exfalso. inversion Hts; subst; match goal with E : todo t = _ :: _ |- _ => rewrite Htodo in E; discriminate end. }
+    rewrite compile_all_cons in Htodo.
+    simpl in Hok. apply andb_true_iff in Hok as [Hoko Hokr].
+    assert (Hacq : exists rest', todo t = Acq (olock o) (omode o) :: rest') by (eexists; exact Htodo).
+    assert (Hnw : no_writer (olock o) (pre ++ post) /\ s' = s /\
+                  t' = mkT (map (bact_act (olock o)) (obody o) ++ Rel (olock o) :: compile_all rest) [(olock o, omode o)] (loc t)).
+    { inversion Hts; subst;
+        match goal with E : todo t = _ :: _ |- _ => rewrite Htodo in E; try discriminate; injection E as E1 E2 E3 end;
+        subst; rewrite Hh, E2; repeat split; auto.
+      apply no_holder_no_writer; auto. }
+    destruct Hnw as (Hnw & -> & ->).
+    assert (Hs_l : s (olock o) = sa (olock o)).
+    { apply HS. apply no_writer_split. split; auto. rewrite Hh. simpl. discriminate. }
+    set (r := run_body (obody o) (loc t, sa (olock o))).
+    exists (snd (seq_op o (loc t) sa), apre ++ (rest, fst (seq_op o (loc t) sa)) :: apost).
+    split.
+    + split; [exact HI'|]. simpl. split.
+      * apply Forall2_app; [|constructor].
+        -- eapply Forall2_trel_mono; eauto.
+           intros u l Hu Hl. unfold RwLock.seq_op. simpl. apply upd_other. intros ->.
+           apply (Hnw u); [rewrite in_app_iff; auto|exact Hl].
+        -- split; [exact Hokr|]. right. exists (olock o), (omode o), (obody o). simpl.
+           repeat split; auto.
+           ++ intros Hm. unfold op_ok in Hoko. rewrite Hm in Hoko. exact Hoko.
+           ++ rewrite Hs_l. reflexivity.
+           ++ intros _. unfold RwLock.seq_op. simpl. rewrite upd_same. rewrite Hs_l. reflexivity.
+        -- eapply Forall2_trel_mono; eauto.
+           intros u l Hu Hl. unfold RwLock.seq_op. simpl. apply upd_other. intros ->.
+           apply (Hnw u); [rewrite in_app_iff; auto|exact Hl].
+      * intros l Hl. apply no_writer_split in Hl as [Hl1 Hl2]. simpl in Hl2.
+        unfold RwLock.seq_op. simpl.
+        destruct (Keqb_dec l (olock o)) as [->|Hn].
+        -- rewrite upd_same. rewrite Keqb_refl in Hl2.
+           destruct (omode o) eqn:Em; [|congruence].
+           unfold op_ok in Hoko. rewrite Em in Hoko.
+           rewrite (run_body_reads _ _ Hoko). simpl. exact Hs_l.
+        -- rewrite upd_other by exact Hn. apply HS. apply no_writer_split. split; auto.
+           rewrite Hh. simpl. discriminate.
+    + left. exists pre, t, (mkT (map (bact_act (olock o)) (obody o) ++ Rel (olock o) :: compile_all rest) [(olock o, omode o)] (loc t)), post,
+             (olock o), (omode o), (map (bact_act (olock o)) (obody o) ++ Rel (olock o) :: compile_all rest).
+      repeat split; auto; try constructor.
+  - (* inside a section *)
+    exists (sa, apre ++ a :: apost). split; [|right; reflexivity].
+    split; [exact HI'|]. simpl.
+    destruct rem as [|b rem].
+    + (* the release *)
+      simpl in Htodo.
+      assert (E : s' = s /\ t' = mkT (compile_all (fst a)) [] (loc t)).
+      { inversion Hts; subst;
+          match goal with E : todo t = _ :: _ |- _ => rewrite Htodo in E; try discriminate; injection E as ? ? end; subst.
+        split; auto. rewrite Hh. unfold RwLock.hrem. simpl. rewrite Keqb_refl. reflexivity. }
+      destruct E as [-> ->]. split.
+      * apply Forall2_app; [exact HFpre|constructor; [|exact HFpost]].
+        split; [exact Hok|]. left. simpl. repeat split; auto.
+      * intros l' Hl'. apply no_writer_split in Hl' as [Hl1 _].
+        destruct (Keqb_dec l' l) as [->|Hn].
+        -- destruct m.
+           ++ apply HS. apply no_writer_split. split; auto. rewrite Hh, hget_cons_same. discriminate.
+           ++ rewrite (Hwr eq_refl). reflexivity.
+        -- apply HS. apply no_writer_split. split; auto. rewrite Hh, hget_cons_other by exact Hn. simpl. discriminate.
+    + simpl in Htodo. destruct b as [f|g]; simpl in Htodo.
+      * (* a read inside the section *)
+        assert (E : s' = s /\ t' = mkT (map (bact_act l) rem ++ Rel l :: compile_all (fst a)) (holds t) (f (loc t) (s l))).
+        { inversion Hts; subst;
+            match goal with E : todo t = _ :: _ |- _ => rewrite Htodo in E; try discriminate; injection E as ? ? ? end; subst.
+          auto. }
+        destruct E as [-> ->]. split.
+        -- apply Forall2_app; [exact HFpre|constructor; [|exact HFpost]].
+           split; [exact Hok|]. right. exists l, m, rem. simpl. repeat split; auto.
+        -- intros l' Hl'. apply HS. apply no_writer_split in Hl' as [Hl1 Hl2]. apply no_writer_split. auto.
+      * (* a write inside the section: the thread holds the write lock *)
+        assert (Em : m = Wm). { destruct m; auto. specialize (Hrd eq_refl). simpl in Hrd. discriminate. }
+        subst m.
+        assert (E : s' = upd s l (g (loc t) (s l)) /\ t' = mkT (map (bact_act l) rem ++ Rel l :: compile_all (fst a)) (holds t) (loc t)).
+        { inversion Hts; subst;
+            match goal with E : todo t = _ :: _ |- _ => rewrite Htodo in E; try discriminate; injection E as ? ? ? end; subst.
+          auto. }
+        destruct E as [-> ->].
+        assert (Hnh : no_holder l (pre ++ post)) by (apply Hexo; rewrite Hh; apply hget_cons_same).
+        split.
+        -- apply Forall2_app; [|constructor].
+           ++ eapply Forall2_trel_mono; eauto. intros u l' Hu Hl'. apply upd_other. intros ->.
+              apply Hl'. apply Hnh. rewrite in_app_iff. auto.
+           ++ split; [exact Hok|]. right. exists l, Wm, rem. simpl. rewrite upd_same. repeat split; auto.
+              intros Hm; discriminate.
+           ++ eapply Forall2_trel_mono; eauto. intros u l' Hu Hl'. apply upd_other. intros ->.
+              apply Hl'. apply Hnh. rewrite in_app_iff. auto.
+        -- intros l' Hl'. apply no_writer_split in Hl' as [Hl1 Hl2]. simpl in Hl2.
+           destruct (Keqb_dec l' l) as [->|Hn].
+           ++ exfalso. apply Hl2. rewrite Hh. apply hget_cons_same.
+           ++ rewrite upd_other by exact Hn. apply HS. apply no_writer_split. auto.
+Qed.
+
+Definition ainit (ats : list athread) : pool := map thread_of ats.
+
+Lemma simrel_init (s : store) (ats : list athread) :
+  Forall (fun a => forallb op_ok (fst a) = true) ats -> simrel (s, ainit ats) (s, ats).
+Proof.
+  intros Hok. split; [|split]; simpl.
+  - (* the invariant holds of threads that hold nothing; their programs need not be checked here:
+       Inv only needs wl of compiled operations, proved below *)
+    assert (Hc : forall (os : list op) , forallb op_ok os = true -> wl [] (compile_all os) = true).
+    { induction os as [|o os IH]; intros H; [reflexivity|].
+      simpl in H. apply andb_true_iff in H as [Ho Hos]. rewrite compile_all_cons.
+      simpl. 
+      assert (Hb : forall (m : mode) (bs : list bact) rest, (m = Rm -> forallb is_read bs = true) ->
+                    wl [(olock o, m)] rest = true ->
+                    wl [(olock o, m)] (map (bact_act (olock o)) bs ++ rest) = true).
+      { intros m. induction bs as [|b bs IHb]; intros rest Hm Hr; simpl; auto.
+        destruct b as [f|g]; simpl; rewrite Keqb_refl.
+        - apply IHb; auto.
+        - destruct m.
+          + specialize (Hm eq_refl). simpl in Hm. discriminate.
+          + apply IHb; auto. intros; discriminate. }
+      apply Hb.
+      - intros Hm. unfold op_ok in Ho. rewrite Hm in Ho. exact Ho.
+      - simpl. rewrite Keqb_refl. unfold RwLock.hrem. simpl. rewrite ?Keqb_refl. simpl. apply IH. exact Hos. }
+    apply Inv_initial. intros t Ht. unfold ainit in Ht. apply in_map_iff in Ht as (a & <- & Ha).
+    simpl. split; auto. apply Hc. rewrite Forall_forall in Hok. apply Hok. exact Ha.
+  - unfold ainit. induction Hok as [|a ats Ha _ IH]; simpl; constructor; auto.
+    split; [exact Ha|]. left. simpl. auto.
+  - intros l _. reflexivity.
+Qed.
+
+(* rw_atomic: every fine-grained execution of threads built from well-formed operations is
+   simulated by an atomic execution of the same operations. *)
+Theorem rw_atomic (s0 : store) (ats0 : list athread) c :
+  Forall (fun a => forallb op_ok (fst a) = true) ats0 ->
+  steps (s0, ainit ats0) c ->
+  exists ca, asteps (s0, ats0) ca /\ simrel c ca.
+Proof.
+  intros Hok Hst. remember (s0, ainit ats0) as c0 eqn:E0.
+  induction Hst as [c|c1 c2 c3 Hss IH Hs].
+  - subst. exists (s0, ats0). split; [constructor|apply simrel_init; exact Hok].
+  - destruct (IH E0) as (ca & Has & Hr).
+    destruct (sim_step _ _ _ Hr Hs) as (ca' & Hr' & [(pre & t & t' & post & l & m & rest & _ & _ & _ & Ha)| ->]).
+    + exists ca'. split; [econstructor; eauto|exact Hr'].
+    + exists ca. auto.
+Qed.
+
 End RWProofs.
